@@ -965,8 +965,9 @@ def _run_formula(spec, res, mg, explore):
             _eq_arrays(res, spec, p, data, want, which)
     elif which in ("gru", "gru-s0"):
         def body():
-            # gru-s0: a symbolic, non-zero initial state (the recurrence must start from it)
-            T, N, C, D = (2, 1, 2, 2) if which == "gru" else ((2 if spec.get("tier") == "thorough" else 1), 2, 1, 2)
+            # gru-s0: a symbolic, non-zero initial state (the recurrence must start from it); one step (two steps from a symbolic
+            # state did not finish within 20 minutes), batch of 2
+            T, N, C, D = (2, 1, 2, 2) if which == "gru" else (1, 2, (2 if spec.get("tier") == "thorough" else 1), 2)
             X = symarr("X", (T, N, C))
             names = ["Uz", "Wz", "bz", "Ur", "Wr", "br", "Uh", "Wh", "bh"]
             shp = {"U": (C, D), "W": (D, D), "b": (D,)}
